@@ -135,6 +135,12 @@ pub struct SlotCfg {
     /// declared minimum number of points of a probe strategy
     pub probe_min: usize,
     pub build_plan: BuildPlan,
+    /// memory layout of the data array handed to the builder (owned/shared: C or F; views: any)
+    #[serde(default = "lay_c")]
+    pub data_lay: Lay,
+    /// memory layout of the axis views handed to the builder (view storage only)
+    #[serde(default = "lay_c")]
+    pub x_lay: Lay,
 }
 
 impl SlotCfg {
@@ -172,7 +178,11 @@ impl SlotCfg {
                 b if self.kind == Kind::Spline => format!("{:?}", b),
                 _ => "-".to_string(),
             },
-            if self.extrapolate { "/extrap" } else { "" }
+            format!(
+                "{}{}",
+                if self.extrapolate { "/extrap" } else { "" },
+                if self.data_lay != Lay::C || self.x_lay != Lay::C { format!("/in:{:?},{:?}", self.data_lay, self.x_lay) } else { String::new() }
+            )
         )
     }
 }
